@@ -1879,6 +1879,7 @@ impl<'a> Parser<'a> {
                     specifiers: vec![],
                     source: None,
                     namespace_export: None,
+                    star: false,
                     default: false,
                     type_only: false,
                     span,
@@ -1939,6 +1940,7 @@ impl<'a> Parser<'a> {
                 specifiers: vec![],
                 source: None,
                 namespace_export: None,
+                star: false,
                 default: true,
                 type_only,
                 span,
@@ -1987,6 +1989,7 @@ impl<'a> Parser<'a> {
                 specifiers,
                 source,
                 namespace_export: None,
+                star: false,
                 default: false,
                 type_only,
                 span,
@@ -2011,6 +2014,7 @@ impl<'a> Parser<'a> {
                 declaration: None,
                 specifiers: vec![],
                 source,
+                star: namespace_export.is_none(),
                 namespace_export,
                 default: false,
                 type_only,
@@ -2060,6 +2064,7 @@ impl<'a> Parser<'a> {
             specifiers: vec![],
             source: None,
             namespace_export: None,
+            star: false,
             default: false,
             type_only,
             span,
